@@ -394,7 +394,9 @@ def assemble(unit_cfg, src="/repo/src"):
                         out.add("\n")
                         base = out.line
                         out.add("\n".join(lines) + "\n")
-                        for (a, b, c) in table:
+                        for nn, (a, b, c) in enumerate(table):
+                            if c.label is None:
+                                c.label = "~inv[%s].%d" % (li["key"], nn + 1)
                             side["clauses"].append({"fn": fi["key"], "kind": "invariant", "loop": li["key"], "label": c.label, "core": c.core, "sup": c.sup,
                                                     "line_start": base + a, "line_end": base + b, "text": " ".join(l.strip() for l in c.text if l.strip())})
                 elif what == "START":
@@ -449,7 +451,9 @@ def assemble(unit_cfg, src="/repo/src"):
                         out.add("\n".join(lines) + "\n            {")
                         if cc.entry:
                             out.add("\n" + "\n".join(cc.entry) + "\n")
-                        for (a, b, c) in table:
+                        for nn, (a, b, c) in enumerate(table):
+                            if c.label is None:
+                                c.label = "~closure[%s].%s%d" % (ci["key"], c.kind, nn + 1)
                             side["clauses"].append({"fn": fi["key"], "kind": "closure-" + c.kind, "closure": ci["key"], "label": c.label, "core": c.core, "sup": c.sup,
                                                     "line_start": base + a, "line_end": base + b, "text": " ".join(l.strip() for l in c.text if l.strip())})
                     elif cc is not None and cc.ret:
